@@ -600,6 +600,10 @@ fn build_stream_cases(seed: u64, thorough: bool) -> Vec<StreamCase> {
                     if batch && needs_answer_first {
                         continue;
                     }
+                    // the draining scene costs a worker of its own (start + SoftStop + stop): a few rounds are enough
+                    if scene == Scene::RefusedDraining && round >= 3 {
+                        continue;
+                    }
                     out.push(StreamCase { scene, fk, batch, ids: [s1, s2, s3] });
                 }
             }
